@@ -241,6 +241,64 @@ func fixLit(s string) string {
 	return s
 }
 
+
+// a pattern derived from the subject's value, so that it matches with a choice of matches
+// (several occurrences of the anchor character, * at either side)
+func litPart(c rune) Part {
+	switch {
+	case c == '\\':
+		return Part{"lit", "\\\\"}
+	case c == '/':
+		return Part{"lit", "\\/"}
+	case c >= 'a' && c <= 'z' || c >= 'A' && c <= 'Z' || c == 'é':
+		return Part{"lit", string(c)}
+	default:
+		return Part{"dbl", string(c)}
+	}
+}
+
+func genPatFromValue(r *rand.Rand, c Case) []Part {
+	val := c.V.Str
+	switch {
+	case c.V.Kind == "idx" && len(c.V.List) > 0:
+		val = hx.Pick(r, c.V.List)
+	case c.V.Kind == "assoc" && len(c.V.Vals) > 0:
+		val = hx.Pick(r, c.V.Vals)
+	case c.Params != nil && len(c.Params) > 0:
+		val = hx.Pick(r, c.Params)
+	}
+	rs := []rune(val)
+	if len(rs) == 0 {
+		return []Part{{"lit", "*"}}
+	}
+	ch := rs[r.IntN(len(rs))]
+	star, any := Part{"lit", "*"}, Part{"lit", "?"}
+	switch r.IntN(8) {
+	case 0:
+		return []Part{star, litPart(ch)}
+	case 1:
+		return []Part{litPart(ch), star}
+	case 2:
+		return []Part{star, litPart(ch), star}
+	case 3:
+		return []Part{any, litPart(ch)}
+	case 4:
+		return []Part{litPart(ch), any, star}
+	case 5:
+		return []Part{star, any}
+	case 6:
+		i := r.IntN(len(rs))
+		j := i + 1 + r.IntN(len(rs)-i)
+		var ps []Part
+		for _, x := range rs[i:j] {
+			ps = append(ps, litPart(x))
+		}
+		return ps
+	default:
+		return []Part{litPart(rs[0]), star, litPart(rs[len(rs)-1])}
+	}
+}
+
 // pattern parts; wide = include brackets etc. (outside the modelled fragment)
 func genPat(r *rand.Rand, wide, quotedOuter bool) []Part {
 	var ps []Part
@@ -420,10 +478,16 @@ func genCase(r *rand.Rand, wide bool) Case {
 		c.P.Op = "exp"
 		c.P.ExpOp = hx.Pick(r, []string{"#", "##", "%", "%%"})
 		c.P.Arg = genPat(r, wide && r.IntN(2) == 0, c.Quoted)
+		if r.IntN(2) == 0 {
+			c.P.Arg = genPatFromValue(r, c)
+		}
 	case "replace":
 		c.P.Op = "repl"
 		c.P.All = r.IntN(3) == 0
 		c.P.Orig = genPat(r, wide && r.IntN(2) == 0, c.Quoted)
+		if r.IntN(2) == 0 {
+			c.P.Orig = genPatFromValue(r, c)
+		}
 		if !c.P.All && r.IntN(3) == 0 {
 			c.P.Orig = append([]Part{{"lit", hx.Pick(r, []string{"#", "%"})}}, c.P.Orig...)
 		}
@@ -440,6 +504,9 @@ func genCase(r *rand.Rand, wide bool) Case {
 			c.P.Arg = []Part{{"lit", hx.Pick(r, []string{"a", "?", "*", "b", "A", "é", "\\a"})}}
 		default:
 			c.P.Arg = genPat(r, wide, c.Quoted)
+			if r.IntN(2) == 0 {
+				c.P.Arg = genPatFromValue(r, c)[:1]
+			}
 		}
 	case "indirect":
 		c.P.Op = "excl"
@@ -582,6 +649,26 @@ func (c Case) inDomain() bool {
 	// ${!r} naming an associative array (bash: element "0"; interp: empty)
 	if p.Op == "excl" && p.Name == "r" && c.R != nil && *c.R == "v" && c.V.Kind == "assoc" {
 		return false
+	}
+	// class assoc_empty_list_op: an empty associative array with [@]/[*] and an operator whose pattern matches ""
+	if c.V.Kind == "assoc" && len(c.V.Keys) == 0 && p.Name == "v" && (p.Idx == "@" || p.Idx == "*") && (p.Op == "repl" || p.Op == "exp") {
+		return false
+	}
+	// bash 5.2 quirk (not a finding): ${v/*\*/X} and ${v/*"*"/X} never match (quick-reject in match_upattern when the
+	// pattern starts with * and ends with an escaped *); the search stays away from replace patterns of that shape
+	if p.Op == "repl" && len(p.Orig) >= 2 {
+		first, last := p.Orig[0], p.Orig[len(p.Orig)-1]
+		startsStar := (first.K == "lit" || first.K == "var") && strings.HasPrefix(strings.TrimLeft(first.S, "#%"), "*")
+		endsQStar := (last.K != "lit" && last.K != "var" && strings.HasSuffix(last.S, "*")) || ((last.K == "lit" || last.K == "var") && strings.HasSuffix(last.S, "\\*"))
+		if startsStar && endsQStar {
+			return false
+		}
+	}
+	if p.Op == "repl" && len(p.Orig) == 1 && (p.Orig[0].K == "lit" || p.Orig[0].K == "var") {
+		t := strings.TrimLeft(p.Orig[0].S, "#%")
+		if strings.HasPrefix(t, "*") && strings.HasSuffix(t, "\\*") {
+			return false
+		}
 	}
 	// class transform_on_list_subject
 	if p.Op == "exp" && p.ExpOp == "@" && list {
@@ -1016,6 +1103,7 @@ var witnesses = []struct{ Class, Script string }{
 	{"quoted_default_word_split", "unset v\nprintf '<%s>' ${v-'d e'}"},
 	{"quoted_default_word_empty", "v=\nprintf '<%s>' ${v:-\"\"}"},
 	{"scalar_list_slice", "v=\nprintf '<%s>' \"${v[@]: -4}\""},
+	{"assoc_empty_list_op", "declare -A v=()\nprintf '<%s>' \"${v[*]/*/x}\""},
 	{"indirect_invalid_name", "v='b a'\nprintf '<%s>' \"${!v}\""},
 	{"unquoted_list_op_null_ifs", "set -- a b\nIFS=\nprintf '<%s>' ${@%c}"},
 	{"transform_on_list_subject", "set -- Ab Cd\nprintf '<%s>' \"${@@L}\""},
